@@ -120,6 +120,10 @@ class Fn:
                 cs = [self.E(x, st) for x in A]
                 if any(t != "Rat" for _, t in cs): self.err("Vec(x,y,z) of non-scalars", n)
                 return "(⟨" + ", ".join(c for c, _ in cs) + "⟩ : V3)", "V3"
+            if f == "np.array" and len(A) == 1 and not n.keywords:      # a copy of a vector: same value, new object
+                a, t = self.E(A[0], st)
+                if t != "V3": self.err("np.array() of a non-vector", n)
+                return a, "V3"
             if f == "Vec.zeros" and len(A) == 1 and isinstance(A[0], ast.Constant) and A[0].value == 3: return "V3.zero", "V3"
             if isinstance(n.func, ast.Attribute) and n.func.attr == "apply" and len(A) == 1:
                 r, tr = self.E(n.func.value, st); a, t = self.E(A[0], st)
@@ -226,8 +230,25 @@ class Fn:
         lines = []
         body = list(s.body)
         saved = dict(self.env)
+        aliases = set()
         while len(body) > 1:
             b = body.pop(0)
+            if isinstance(b, ast.Assign) and len(b.targets) == 1 and isinstance(b.targets[0], ast.Name):
+                val = b.value
+                if isinstance(val, ast.Call) and ast.unparse(val.func) == "Vec" and len(val.args) == 1: val = val.args[0]     # Vec(x) of an array is a view
+                (aliases.add if self.is_vertex(val) else aliases.discard)(b.targets[0].id)
+            if isinstance(b, ast.Assign) and len(b.targets) == 1 and isinstance(b.targets[0], ast.Subscript) \
+                    and isinstance(b.targets[0].value, ast.Name) and b.targets[0].value.id in self.env \
+                    and self.env[b.targets[0].value.id][1] == "V3" and self.env[b.targets[0].value.id][0].startswith("v"):
+                # item assignment into a LOCAL copy (bound in this loop body by np.array(..)): a new value of the local
+                if b.targets[0].value.id in aliases:
+                    self.err("item assignment through a local that ALIASES the stored vector (in-place update: moves every mesh / array sharing it)", b)
+                c, tc = self.E(b.targets[0].slice); a, t = self.E(b.value)
+                if tc != "Nat" or t != "Rat": self.err("component assignment", b)
+                old = self.env[b.targets[0].value.id][0]
+                v = self.bind(b.targets[0].value.id, None, "V3")
+                lines.append(f"let {v} := ({old}).set {c} {a}")
+                continue
             if not (isinstance(b, ast.Assign) and len(b.targets) == 1 and isinstance(b.targets[0], ast.Name)): self.err("loop body: expected a local binding", b)
             a, t = self.E(b.value)
             if t not in ("V3", "Rat"): self.err(f"local bound to a {t}", b)
@@ -307,6 +328,70 @@ def _merge(tree):
             "  ms.foldl (mergeBody payload) { offset := 0, verts := [], edges := [], faces := [], cells := [] }\n")
 
 
+def _copy(tree):
+    """mesh.py::copy — `copy_mesh = type(mesh)()`, the two branches of `copy_attributes`, the connectivity statement, `return copy_mesh`:
+    every assignment becomes one CopyField row (target path, source path, how, hasattr guard), in statement order"""
+    fn = T.find_def(tree, "copy")
+    b = [x for x in _body(fn) if not isinstance(x, (ast.Import, ast.ImportFrom))]
+    args = [a.arg for a in fn.args.args]
+    if len(args) != 3: raise TranslateError(f"copy: {len(args)} parameters, expected 3")
+    src, p_attr, p_conn = args
+    if len(b) != 4: raise TranslateError(f"copy: {len(b)} statements, expected 4")
+    if not (isinstance(b[0], ast.Assign) and isinstance(b[0].targets[0], ast.Name) and ast.unparse(b[0].value) == f"type({src})()"):
+        raise TranslateError("copy: the copy does not start as a new empty mesh of the same class (`type(mesh)()`)")
+    dst = b[0].targets[0].id
+    if not (isinstance(b[3], ast.Return) and ast.unparse(b[3].value) == dst): raise TranslateError("copy: does not return the new mesh")
+
+    def how_of(val, path):
+        u = ast.unparse(val).replace(" ", "")
+        want = f"{src}.{path}"
+        if u == f"deepcopy({want})": return path, "deep"
+        if u == f"deepcopy({want},{{id({src}):{dst}}})": return path, "deepMemo"
+        if u == want: return path, "ref"
+        if isinstance(val, ast.Call) and len(val.args) >= 1 and ast.unparse(val.args[0]).replace(" ", "").startswith(src + "."):
+            sp = ast.unparse(val.args[0]).replace(" ", "")[len(src) + 1:]
+            f = ast.unparse(val.func)
+            if f in ("list", "copy", "copy.copy", "tuple", "np.array") and len(val.args) == 1: return sp, "shallow"
+            if f == "deepcopy" and len(val.args) == 1: return sp, "deep"
+        if isinstance(val, ast.Subscript) and ast.unparse(val.value).replace(" ", "") == want: return path, "shallow"
+        raise TranslateError(f"copy: right-hand side not understood: {ast.unparse(val)[:80]}")
+
+    def rows(stmts, guard=""):
+        out = []
+        for st in stmts:
+            if isinstance(st, ast.Assign) and len(st.targets) == 1 and ast.unparse(st.targets[0]).startswith(dst + "."):
+                path = ast.unparse(st.targets[0])[len(dst) + 1:]
+                sp, how = how_of(st.value, path)
+                out.append((path, sp, how, guard))
+            elif isinstance(st, ast.If) and not st.orelse and not guard:
+                t = ast.unparse(st.test).replace(" ", "").replace('"', "'")
+                pre, post = f"hasattr({src},'", "')"
+                if not (t.startswith(pre) and t.endswith(post)): raise TranslateError(f"copy: guard not understood: {ast.unparse(st.test)[:60]}")
+                out += rows(st.body, t[len(pre):-len(post)])
+            else:
+                raise TranslateError(f"copy: statement not understood: {ast.unparse(st)[:80]}")
+        return out
+    br = b[1]
+    if not (isinstance(br, ast.If) and isinstance(br.test, ast.Name) and br.test.id == p_attr and br.orelse):
+        raise TranslateError("copy: `if copy_attributes: … else: …` not found")
+    attrB, dataB = rows(br.body), rows(br.orelse)
+    cn = b[2]
+    t = ast.unparse(cn.test).replace(" ", "").replace('"', "'") if isinstance(cn, ast.If) else ""
+    if not (isinstance(cn, ast.If) and not cn.orelse and t in (f"{p_conn}andhasattr({src},'connectivity')", f"hasattr({src},'connectivity')and{p_conn}")):
+        raise TranslateError("copy: `if copy_connectivity and hasattr(mesh, 'connectivity'):` not found")
+    connB = rows(cn.body, "connectivity")
+
+    def tbl(name, doc, rs):
+        items = ", ".join(f'⟨"{a}", "{b_}", .{c}, "{d}"⟩' for a, b_, c, d in rs)
+        return f"/-- {doc} -/\ndef {name} : List CopyField := [{items}]\n"
+    return ("/-- `copy`: `copy_mesh = type(mesh)()` -/\ndef copyFresh : Bool := true\n"
+            + tbl("copyAttrBranch", "`copy`, branch `copy_attributes` (whole containers)", attrB)
+            + tbl("copyDataBranch", "`copy`, default branch (the data fields of the containers only)", dataB)
+            + tbl("copyConnBranch", "`copy`, under `copy_connectivity and hasattr(mesh, 'connectivity')`", connB)
+            + "/-- `copy` -/\ndef copy (i : Nat) (attrs conn : Bool) (s : StateX) : StateX :=\n"
+              "  copyByTables copyFresh copyAttrBranch copyDataBranch copyConnBranch s i attrs\n")
+
+
 def translate_sites():
     sites, chunks, status = [], [], {}
     try:
@@ -332,6 +417,11 @@ def translate_sites():
         chunks.append(_merge(mtree)); return "accumulators, guards, offset advanced last"
     rec = T.site("mesh.py:merge (body)", mg)
     sites.append(rec); status["merge"] = rec["ok"]
+
+    def cp():
+        chunks.append(_copy(mtree)); return "fresh mesh; attribute / data branches; connectivity through deepcopy with memo"
+    rec = T.site("mesh.py:copy (body)", cp)
+    sites.append(rec); status["copy"] = rec["ok"]
     if all(r["ok"] for r in sites):
         body = ("import Mouette.Model.MeshSource\nnamespace Mouette.Generated.C06Src\nopen Mouette.MeshHeap Mouette.MeshSrc\n"
                 "set_option linter.unusedVariables false\n\n" + "\n".join(chunks) + "\nend Mouette.Generated.C06Src\n")
